@@ -125,4 +125,35 @@ pub fn inv_fail_after_write() {
     assert!(!clean);
 }
 
+/// The cheapest build that fails AFTER bits were written: a fresh builder and a Msg1020 whose second
+/// field (df040, GLONASS frequency channel, bias -7) is below its bias, so the encoder returns
+/// OutOfRange right after the message number and the satellite id went into the buffer. Afterwards the
+/// used-flag must be up (or the buffer untouched), otherwise the next build would start from a dirty
+/// buffer without wiping it (precondition of L1). Concrete message; a few field writes only, so this
+/// one fits the quick tier where `inv_fail_after_write` (1230, list encoder) does not.
+#[kani::proof]
+#[kani::unwind(1031)]
+pub fn inv_fail_early() {
+    let mut m = rtcm_rs::msg::Msg1020T::default();
+    m.glo_satellite_id = 5;
+    m.glo_satellite_freq_chan_number = -8;
+    let msg = Message::Msg1020(m);
+    let mut b = MessageBuilder::new();
+    let r = b.build_message(&msg);
+    assert!(r.is_err());
+    let (d, has_run) = b.verif_raw();
+    let mut clean = true;
+    let mut i = 1;
+    while i < 1029 {
+        if d[i] != 0 {
+            clean = false;
+        }
+        i += 1;
+    }
+    assert!(d[0] == 0xD3);
+    assert!(has_run || clean);
+    // the failure really happened after bits were written
+    assert!(!clean);
+}
+
 include!("gen/c12_list.rs");
